@@ -9,33 +9,50 @@ Open Scope string_scope.
 
 (* invariant for every state reachable from a construction *)
 Theorem reachable_Inv pid pl props st v0 ops :
-  (forall pl0, pl = Some pl0 -> sortedk pl0 /\ ~ In ni_name (names pl0)) ->
+  (forall pl0, pl = Some pl0 -> caller_ok pl0) ->
   (forall x, In x pid -> -1 <= x) ->
   init pid pl props = Ok st ->
   run_ok ops (mkState st [v0]) ->
   Inv (m_store (run ops (mkState st [v0]))).
 Proof. intros H1 H2 H3 H4. apply run_Inv; auto. simpl. eapply init_Inv; eauto. Qed.
 
-(* --- finding: a caller's list holding not_indexed, relinked by list order *)
+(* a caller's list holding not_indexed at id -1 (e.g. another map's .phases): after
+   construction "not_indexed" is still exactly the phase of id -1 *)
+Theorem init_not_indexed pid pl st :
+  sortedk pl -> (forall i p, In (i, p) pl -> (pname p = ni_name <-> i = -1)) ->
+  (forall x, In x pid -> -1 <= x) -> init pid (Some pl) [] = Ok st ->
+  forall i p, In (i, p) (s_phases st) -> (pname p = ni_name <-> i = -1).
+Proof.
+  intros Hs Hn Hl Hi.
+  assert (HI : Inv st).
+  { apply (init_Inv pid (Some pl) [] st); auto. intros pl0 E. inversion E; subst. split; auto.
+    intros i p Hin. apply (Hn _ _ Hin). }
+  apply HI.
+Qed.
+
+(* the caller's not_indexed entry takes no part in the linking *)
+Theorem init_ignores_caller_not_indexed pid pl props : sortedk pl ->
+  init pid (Some pl) props = init pid (Some (filter (fun kv => negb (Z.eqb (fst kv) (-1))) pl)) props.
+Proof.
+  intros Hs. unfold init, init_phases.
+  assert (E : strip_ni (filter (fun kv => negb (Z.eqb (fst kv) (-1))) pl) = strip_ni pl).
+  { rewrite (strip_ni_filter pl) by (apply sortedk_NoDup; auto).
+    apply strip_ni_none. intros Hin. unfold ids in Hin. apply in_map_iff in Hin.
+    destruct Hin as [[i p] [E Hin]]. apply filter_In in Hin. simpl in *. subst i.
+    destruct Hin as [_ Hin]. discriminate. }
+  rewrite E. reflexivity.
+Qed.
+
+(* the former witness: list [-1:not_indexed, 0:a, 1:b] with ids [0,1,2] *)
 Definition w1_pl : plist :=
   [(-1, ni_phase); (0, mkPhase "a" (Some "m-3m") 0); (1, mkPhase "b" None 0)].
 
-Lemma init_not_indexed_refuted :
-  exists pid pl st,
-    sortedk pl /\ (forall i p, In (i, p) pl -> (pname p = ni_name <-> i = -1)) /\
-    (forall x, In x pid -> -1 <= x) /\ init pid (Some pl) [] = Ok st /\
-    exists i p, In (i, p) (s_phases st) /\ pname p = ni_name /\ i <> -1.
-Proof.
-  exists [0; 1; 2], w1_pl. eexists. split; [|split; [|split; [|split]]].
-  - simpl. repeat split; repeat constructor; simpl; lia.
-  - intros i p [H|[H|[H|[]]]]; inversion H; subst; simpl; split; intros E; try reflexivity;
-      try discriminate; try lia.
-  - simpl. intros x [H|[H|[H|[]]]]; lia.
-  - vm_compute. reflexivity.
-  - exists 0, ni_phase. simpl. split; [left; reflexivity|split; [reflexivity|lia]].
-Qed.
+Example init_not_indexed_witness :
+  init [0; 1; 2] (Some w1_pl) []
+  = Ok (mkStore [0; 1; 2] [(0, mkPhase "a" (Some "m-3m") 0); (1, mkPhase "b" None 0); (2, default_phase)] []).
+Proof. reflexivity. Qed.
 
-(* --- finding: array assignment containing -1 while not_indexed is not listed *)
+(* the former witness of the array assignment: [0,0] <- [-1,0] now lists not_indexed *)
 Definition w2_st : store := mkStore [0; 0] [(0, default_phase)] [].
 
 Lemma w2_Inv : Inv w2_st.
@@ -46,49 +63,30 @@ Proof.
   - reflexivity.
 Qed.
 
-Lemma set_pid_array_refuted :
-  exists st v zs, Inv st /\ List.length v = List.length (s_pid st) /\ List.length zs = count v /\
-    (forall z, In z zs -> z = -1 \/ In z (ids (s_phases st))) /\
-    ~ Inv (fst (set_pid st v (PArr zs))).
-Proof.
-  exists w2_st, [true; true], [-1; 0]. split; [apply w2_Inv|]. repeat split.
-  - simpl. intros z [H|[H|[]]]; subst; auto.
-  - intros [_ He]. assert (H : In (-1) (ids (s_phases (fst (set_pid w2_st [true; true] (PArr [-1; 0])))))).
-    { apply He. vm_compute. auto. }
-    vm_compute in H. destruct H as [H|[]]. discriminate.
-Qed.
+Example set_pid_array_witness :
+  set_pid w2_st [true; true] (PArr [-1; 0])
+  = (mkStore [-1; 0] [(-1, ni_phase); (0, default_phase)] [], None).
+Proof. reflexivity. Qed.
 
-(* --- finding: one phase in the selection, its name shared with a smaller id *)
+(* array assignment of ids that are -1 or listed keeps the invariant *)
+Theorem set_pid_array_Inv st v zs : Inv st ->
+  (forall z, In z zs -> z = -1 \/ In z (ids (s_phases st))) ->
+  Inv (fst (set_pid st v (PArr zs))).
+Proof. intros HI Hz. apply (set_pid_Inv st v (PArr zs)); auto. Qed.
+
+(* the former witness of phases_in_data: unnamed phases 0 and 3, selection holding only id 3 *)
 Definition w3_st : store := mkStore [0; 0; 3] [(0, default_phase); (3, default_phase)] [].
 
-Lemma w3_Inv : Inv w3_st.
-Proof.
-  apply (init_Inv [0; 0; 3] None [] w3_st).
-  - intros pl0 H. discriminate.
-  - simpl. intros x [H|[H|[H|[]]]]; lia.
-  - reflexivity.
-Qed.
+Example phases_in_data_witness :
+  phases_in_data w3_st [false; false; true] = Ok [(3, default_phase)].
+Proof. reflexivity. Qed.
 
-Lemma phases_in_data_refuted :
-  exists st v pl, Inv st /\ List.length v = List.length (s_pid st) /\
-    phases_in_data st v = Ok pl /\ ids pl <> present st v.
-Proof.
-  exists w3_st, [false; false; true], [(0, default_phase)]. split; [apply w3_Inv|]. repeat split.
-  vm_compute. discriminate.
-Qed.
-
-(* --- finding: int value assigned through a selection to a float property *)
-Lemma set_prop_frame_refuted :
-  exists st v k a z a',
-    prop_get k (s_props st) = Some a /\ List.length v = List.length (pvals a) /\ pdt a = DFlt /\
-    prop_get k (s_props (fst (set_prop st v k (VScalar DInt z)))) = Some a' /\ pdt a' = DInt /\
-    (* outside the selection the NUMBERS changed (quarters: 0.5 -> 0) *)
-    map (fun x => x * 4) (select_by (map negb v) (pvals a')) <> select_by (map negb v) (pvals a).
-Proof.
-  exists (mkStore [0; 0] [(0, default_phase)] [("iq", mkArr DFlt [2; 6])]), [false; true], "iq",
-    (mkArr DFlt [2; 6]), 7, (mkArr DInt [0; 7]).
-  repeat split. vm_compute. discriminate.
-Qed.
+(* the former witness of the property cast: float [0.5, 1.5], selection {1}, int 7 *)
+Example set_prop_witness :
+  s_props (fst (set_prop (mkStore [0; 0] [(0, default_phase)] [("iq", mkArr DFlt [2; 6])]) [false; true] "iq"
+                         (VScalar DInt 7)))
+  = [("iq", mkArr DFlt [2; 28])].
+Proof. reflexivity. Qed.
 
 (* the size guard of the `phases` setter does not protect the invariant *)
 Lemma phases_setter_guard_insufficient :
